@@ -430,3 +430,23 @@ package gorm
 //@   in gorm.(*Statement).AddVar
 //@   min-sites 1
 //@   assert starts-from-parents-values: len(arg1.Statement.Vars) >= len(stmt.Vars) && forall(k, 0, len(stmt.Vars), arg1.Statement.Vars[k] == stmt.Vars[k]) [C01]
+
+//@ # ---------- C10: permission-denied fields are never selected for a write ----------
+//@ spec colName(f) = ite(f.DBName == "", f.Name, f.DBName)
+//@ spec denied(f, rc, ru) = (rc && !f.Creatable) || (ru && !f.Updatable)
+//@ func (*Statement).SelectAndOmitColumns
+//@   tags C10-undischarged
+//@   loop 3 invariant results-is-own-map: fresh(results) && stmt.Schema != nil
+//@   loop 3 invariant denied-named-fields-excluded-so-far: forallkey(k, stmt.Schema.FieldsByName, visited(k) && denied(stmt.Schema.FieldsByName[k], requireCreate, requireUpdate) && stmt.Schema.FieldsByName[k].DBName != "" ==> has(results, stmt.Schema.FieldsByName[k].DBName) && !results[stmt.Schema.FieldsByName[k].DBName])
+//@   loop 3 invariant denied-unnamed-fields-excluded-so-far: forallkey(k, stmt.Schema.FieldsByName, visited(k) && denied(stmt.Schema.FieldsByName[k], requireCreate, requireUpdate) && stmt.Schema.FieldsByName[k].DBName == "" ==> has(results, stmt.Schema.FieldsByName[k].Name) && !results[stmt.Schema.FieldsByName[k].Name])
+//@   ensures denied-fields-excluded: stmt.Schema != nil ==> forallkey(k, stmt.Schema.FieldsByName, has(stmt.Schema.FieldsByName, k) ==> denied(stmt.Schema.FieldsByName[k], requireCreate, requireUpdate) ==> has(result0, colName(stmt.Schema.FieldsByName[k])) && !result0[colName(stmt.Schema.FieldsByName[k])])
+
+//@ # C10 note: the permission lemma on SelectAndOmitColumns above is written and its entry/exit steps
+//@ # discharge, but the preservation step on the two writing paths times out on all three solvers; it is
+//@ # therefore tagged C10-undischarged and NOT part of the C10 claim (DESIGN.md 4/C10).
+
+//@ site column-updates-run-no-hooks
+//@   match call gorm.(*processor).Execute
+//@   in gorm.(*DB).UpdateColumn gorm.(*DB).UpdateColumns
+//@   min-sites 2
+//@   assert hooks-skipped: arg1.Statement.SkipHooks [C10,C13]
